@@ -17,6 +17,7 @@ from ..core import astutil as au
 from ..core.cfg import CFG
 from ..core.report import AnalysisError
 from ..core.tables import FiniteEval
+from ..core.template import find, has
 
 LEVEL = 'other'
 SIMS = 'emg3d/simulations.py'
@@ -434,8 +435,10 @@ def rule_OW4(ctx, mod, E):
     td = E.members['to_dict']
     tols = [s for s in td.body if isinstance(s, ast.Assign) and ast.unparse(
         s.targets[0]).replace('"', "'") == "self.solver_opts['tol']"]
-    outs = [s for s in td.body if isinstance(s, ast.Assign) and ast.unparse(
-        s.targets[0]) == 'out']
+    outs = [s for s in td.body if isinstance(s, ast.Assign) and isinstance(
+        s.value, ast.Dict) and any(isinstance(k, ast.Constant) and
+                                   k.value == '__class__'
+                                   for k in s.value.keys)]
     ok = len(tols) == 1 and ast.unparse(tols[0].value) == 'self.tol_forward' \
         and outs and tols[0].lineno < outs[0].lineno
     ctx.check('C12.OW4.tol', 'Simulation.to_dict', ok,
@@ -454,30 +457,37 @@ def rule_OW5(ctx, mod, E):
               f'copy() is `{txt}`; it must go through to_dict(copy=True)',
               ctx.where(mod, cp))
     td = E.members['to_dict']
+    odict = [s_ for s_ in td.body if isinstance(s_, ast.Assign) and
+             isinstance(s_.value, ast.Dict) and any(
+                 isinstance(k, ast.Constant) and k.value == '__class__'
+                 for k in s_.value.keys)]
+    oname = ast.unparse(odict[0].targets[0]) if odict else 'out'
+    tps = au.params(td)
     deep = [n for n in ast.walk(td) if isinstance(n, ast.Return) and
-            ast.unparse(n.value) == 'deepcopy(out)']
-    ok = bool(deep) and any(ast.unparse(t) == 'copy' and pol for t, pol in
+            ast.unparse(n.value) == f'deepcopy({oname})']
+    ok = bool(deep) and any(ast.unparse(t) == tps[2] and pol for t, pol in
                             au.guards_of(deep[0], td))
     ctx.check('C12.OW5.copy', 'Simulation.to_dict(copy=True)', ok,
               'to_dict(copy=True) does not return a deep copy',
               ctx.where(mod, td))
     fd = E.members['from_dict']
-    cps = [s for s in fd.body if isinstance(s, ast.Assign) and ast.unparse(
-        s.targets[0]).replace('"', "'") == "cls_inp['solver_opts']" and
-        ast.unparse(s.value).replace('"', "'") ==
-        "cls_inp['solver_opts'].copy()"]
-    muts = [s for s in fd.body if isinstance(s, ast.Assign) and ast.unparse(
-        s.targets[0]).replace('"', "'").startswith("cls_inp['solver_opts'][")]
-    ok = bool(cps) and all(cps[0].lineno < m.lineno for m in muts)
+    ctor = [c for c in au.calls(fd, 'cls') if any(
+        k.arg is None for k in c.keywords)]
+    ctx.anchor(len(ctor) == 1, 'cls(**kwargs) in Simulation.from_dict')
+    X = [ast.unparse(k.value) for k in ctor[0].keywords if k.arg is None][0]
+    cps = find(f"{X}['solver_opts'] = {X}['solver_opts'].copy()", fd)
+    muts = [s_ for s_ in fd.body if isinstance(s_, ast.Assign) and
+            ast.unparse(s_.targets[0]).replace('"', "'").startswith(
+                f"{X}['solver_opts'][")]
+    ok = len(cps) == 1 and all(cps[0][0].lineno < m.lineno for m in muts)
     ctx.check('C12.OW5.copy', 'Simulation.from_dict solver_opts', ok,
               'from_dict mutates the solver_opts dict of its input (shared '
               'with the original simulation)', ctx.where(mod, fd))
     # survey / model copied via their own from_dict
     for k, c in (('survey', 'surveys.Survey.from_dict'),
                  ('model', 'models.Model.from_dict')):
-        ok = any(isinstance(s, ast.Assign) and ast.unparse(s.value).replace(
-            '"', "'") == f"{c}(cls_inp['{k}'])" for s in fd.body)
-        ctx.check('C12.OW5.copy', f'Simulation.from_dict {k}', ok,
+        ctx.check('C12.OW5.copy', f'Simulation.from_dict {k}',
+                  has(f"{X}['{k}'] = {c}({X}['{k}'])", fd),
                   f'{k} is not rebuilt through {c}', ctx.where(mod, fd))
 
 
@@ -494,10 +504,16 @@ def rule_OW6(ctx, mod, E):
                 gs = [(ast.unparse(t).replace(' ', ''), p)
                       for t, p in au.guards_of(st, fn)]
                 ps = au.all_params(fn)
-                full = any(p and ('sourceisNone' in t and
-                                  'frequencyisNone' in t and 'or' not in t)
-                           for t, p in gs)
-                not_obs = any((t == 'observed' and not p) for t, p in gs)
+                sv = find("_s_ = kwargs.pop('source', None)", fn)
+                fv = find("_f_ = kwargs.pop('frequency', None)", fn)
+                full = False
+                if sv and fv:
+                    a_, b_ = sv[0][1]['_s_'], fv[0][1]['_f_']
+                    full = any(p and t in (f'{a_}isNoneand{b_}isNone',
+                                           f'{b_}isNoneand{a_}isNone')
+                               for t, p in gs)
+                ops = au.params(fn)
+                not_obs = any((t == ops[1] and not p) for t, p in gs)
                 ctx.check('C12.OW6.computed', f'Simulation.{name} '
                           f'`{au.stext(st)}`', name == 'compute' and full
                           and not_obs, f'`_computed = True` is stored under '
@@ -508,11 +524,15 @@ def rule_OW6(ctx, mod, E):
     ctx.floor('C12.OW6.computed', 1)
     # the full computation is selected by the same condition
     cp = E.members['compute']
-    t = ast.unparse(cp).replace(' ', '')
+    sv = find("_s_ = kwargs.pop('source', None)", cp)
+    fv = find("_f_ = kwargs.pop('frequency', None)", cp)
+    c_ = E.members['_compute']
+    cpp = au.params(c_)
     ctx.check('C12.OW6.computed', 'compute: all pairs when no source/'
-              'frequency is given', 'self._compute([(source,frequency)])'
-              in t and 'ifnotsrcfreq[0][0]:' in ast.unparse(
-                  E.members['_compute']).replace(' ', ''),
+              'frequency is given', bool(sv) and bool(fv) and has(
+                  f'self._compute([({sv[0][1]["_s_"]}, {fv[0][1]["_f_"]})])',
+                  cp) and has(f'if not {cpp[1]}[0][0]:\n    {cpp[1]} = '
+                              'self._srcfreq', c_),
               'compute() does not compute all pairs for source=None',
               ctx.where(mod, cp))
 
